@@ -145,6 +145,13 @@ fn run_cmd(cmd: &str, args: &[String]) -> String {
             ctx.variables.insert("keeper".to_string(), old);
         }
     }
+    // recorded finding C16/concat-no-arguments-reads-caller-variable: a `concat` WITHOUT arguments
+    // called while the caller owns a variable `scope::concat::arguments` holding an array handle
+    if cmd == "concat" && args.is_empty() {
+        if let (CommandResult::Continue(Some(hd)), _) = run_one(&mut ctx, "array", vec!["a".to_string(), "b".to_string(), "c".to_string()], Some("tmp_h".into())) {
+            ctx.variables.insert("scope::concat::arguments".to_string(), hd);
+        }
+    }
     let res = run_one(&mut ctx, cmd, written, Some("out".into())).0;
     // an array the caller kept from before the call is still what it was
     if let Some(k) = ctx.variables.get("keeper").cloned() {
@@ -711,6 +718,17 @@ impl Prop for C16Prop {
             },
             _ => None,
         }
+    }
+    fn known(&self, req: &str, _model: &str, imp: &str) -> Option<String> {
+        // `concat` without arguments while the caller owns `scope::concat::arguments` = [a, b, c]
+        // (set up by run_cmd for every argument-less concat): the body iterates the CALLER's array
+        if req.starts_with("cmd ") || !req.starts_with("calc ") {
+            let (cmd, args) = parse_req(req);
+            if cmd == "concat" && args.is_empty() && imp == format!("ok {}", enc_str("abc")) {
+                return Some("C16/concat-no-arguments-reads-caller-variable".to_string());
+            }
+        }
+        None
     }
     fn outcome_kind(&self, imp: &str) -> String {
         let t = imp.split(' ').next().unwrap_or("");
